@@ -189,6 +189,44 @@ impl MotionProfile {
         }
     }
 }
+//Verification hooks. `cfg(kani)` is only ever set by the Kani model checker, so this is never
+//compiled into a normal build. They expose the otherwise private phase boundaries so that harnesses
+//can (a) read them from a profile built by `new` and (b) build a profile with arbitrary ones.
+#[cfg(kani)]
+impl MotionProfile {
+    ///Build a profile directly from its parts, bypassing the kinematics in `new`.
+    pub fn vk_from_parts(
+        start_pos: Quantity,
+        start_vel: Quantity,
+        t1: Time,
+        t2: Time,
+        t3: Time,
+        max_acc: Quantity,
+        end_command: Command,
+    ) -> Self {
+        MotionProfile {
+            start_pos: start_pos,
+            start_vel: start_vel,
+            t1: t1,
+            t2: t2,
+            t3: t3,
+            max_acc: max_acc,
+            end_command: end_command,
+        }
+    }
+    ///Read the private parts: (start_pos, start_vel, t1, t2, t3, max_acc, end_command).
+    pub fn vk_parts(&self) -> (Quantity, Quantity, Time, Time, Time, Quantity, Command) {
+        (
+            self.start_pos,
+            self.start_vel,
+            self.t1,
+            self.t2,
+            self.t3,
+            self.max_acc,
+            self.end_command,
+        )
+    }
+}
 #[cfg(test)]
 mod tests {
     use super::*;
